@@ -22,20 +22,30 @@ class Corrupt:
 
 
 class StampingInjector(fsfaults.Injector):
-    """Also stamps strictly increasing logical modified times on every completed rename, so file
-    times are pairwise distinct without sleeping."""
+    """Also gives every published file a strictly increasing logical modified time (stamped on the
+    staging file just before the rename, under a lock), so file times are pairwise distinct and
+    ordered like the renames without sleeping."""
+
+    def __init__(self, root, plan=None):
+        super().__init__(root, plan)
+        import threading
+
+        self._stamp_lock = threading.Lock()
+        ticks = [0]
+        for n in os.listdir(root):
+            if not n.endswith(".STAGING"):
+                ticks.append(int(round(os.path.getmtime(os.path.join(root, n)) - EPOCH_TS)))
+        self._tick = max(ticks)
 
     def replace(self, src, dst, **kw):
-        r = super().replace(src, dst, **kw)
-        if self.mine(dst):
-            d = os.path.dirname(os.fspath(dst))
-            ticks = [0]
-            for n in os.listdir(d):
-                if not n.endswith(".STAGING") and os.path.join(d, n) != os.fspath(dst):
-                    ticks.append(int(round(os.path.getmtime(os.path.join(d, n)) - EPOCH_TS)))
-            t = EPOCH_TS + max(ticks) + 1
-            os.utime(dst, (t, t))
-        return r
+        if not self.mine(dst):
+            return fsfaults._real_replace(src, dst, **kw)
+        self.op("replace", dst)
+        with self._stamp_lock:
+            self._tick += 1
+            t = EPOCH_TS + self._tick
+            os.utime(src, (t, t))
+            return fsfaults._real_replace(src, dst, **kw)
 
 
 class FilePickleStore(PickleFileStore):
